@@ -46,11 +46,20 @@ def distance_segment_to_segment(f1, f2, t1, t2):
     x4, y4 = t2[0], t2[1]
     n = ((y4 - y3) * (x2 - x1) - (x4 - x3) * (y2 - y1))
     if np.allclose([n], [0], rtol=0):
-        # parallel
-        is_parallel = True
-        n = 0.0001  # TODO: simulates a point far away
-    else:
-        is_parallel = False
+        # Parallel (or a zero-length segment): the smallest distance is realised in at least
+        # one of the four end points.
+        best = None
+        for pt, u_t in ((t1, 0.0), (t2, 1.0)):
+            pf, u_f = project(f1, f2, pt)
+            d = distance(pf, pt)
+            if best is None or d < best[0]:
+                best = (d, (pf[0], pf[1]), (pt[0], pt[1]), u_f, u_t)
+        for pf, u_f in ((f1, 0.0), (f2, 1.0)):
+            pt, u_t = project(t1, t2, pf)
+            d = distance(pf, pt)
+            if d < best[0]:
+                best = (d, (pf[0], pf[1]), (pt[0], pt[1]), u_f, u_t)
+        return best
     u_f = ((x4 - x3) * (y1 - y3) - (y4 - y3) * (x1 - x3)) / n
     u_t = ((x2 - x1) * (y1 - y3) - (y2 - y1) * (x1 - x3)) / n
     xi = x1 + u_f * (x2 - x1)
